@@ -147,21 +147,45 @@ def gen_case(rng):
     if rng.random() < 0.35:
         top['default'] = {'x': 1}         # the source namespace declares a default of its own
     kind = rng.choice(['inputs', 'outputs'])
-    return dict(tree=tree, ex=ex, inc=inc, ns=ns, opts=opts, top=top, kind=kind)
+    # one case in five: specs whose namespace class has its own separator ('/'), as `PORT_NAMESPACE_TYPE` subclasses may
+    sep = '/' if rng.random() < 0.2 else '.'
+    return dict(tree=tree, ex=ex, inc=inc, ns=ns, opts=opts, top=top, kind=kind, sep=sep)
 
 
-def build(ns, tree, plumpy):
+def build(ns, tree, plumpy, ns_cls=None):
     from plumpy.ports import PortNamespace, InputPort
     for nm, attr, sub in tree:
         if sub is None:
             ns[nm] = InputPort(nm, **copy.deepcopy(LEAF_ATTRS[attr]))
         else:
-            if 'unit' in attr:
+            if ns_cls is not None:
+                ns[nm] = ns_cls(nm, **{k: v for k, v in attr.items() if k != 'unit'})
+                ns[nm].unit = attr.get('unit')
+            elif 'unit' in attr:
                 ns[nm] = unit_ns_class()(nm, **{k: v for k, v in attr.items() if k != 'unit'})
                 ns[nm].unit = attr['unit']
             else:
                 ns[nm] = PortNamespace(nm, **attr)
-            build(ns[nm], sub, plumpy)
+            build(ns[nm], sub, plumpy, ns_cls)
+
+
+_SLASH = []
+
+
+def slash_classes():
+    """a namespace class with its own separator and the spec class that uses it"""
+    if not _SLASH:
+        import plumpy
+        from plumpy.ports import PortNamespace
+
+        class SlashNS(PortNamespace):
+            NAMESPACE_SEPARATOR = '/'
+            unit = None
+
+        class SlashSpec(plumpy.ProcessSpec):
+            PORT_NAMESPACE_TYPE = SlashNS
+        _SLASH.extend([SlashNS, SlashSpec])
+    return _SLASH
 
 
 _UNIT_NS = []
@@ -215,28 +239,38 @@ def run_impl(case):
     from plumpy.ports import PortNamespace, InputPort
     tree, ex, inc, nsname, opts, top, kind = (case[k] for k in ('tree', 'ex', 'inc', 'ns', 'opts', 'top', 'kind'))
     fails = []
+    sep = case.get('sep', '.')
+    ns_cls, spec_cls = slash_classes() if sep == '/' else (None, plumpy.ProcessSpec)
+    NS = ns_cls or PortNamespace
+
+    def real(r):            # a rule / namespace in the notation of the spec's namespace class
+        return r if (r is None or sep == '.') else r.replace('.', sep)
 
     def F(sig, clause, detail=None):
         fails.append(dict(signature=sig, clause=clause, detail=detail))
 
     class Src(plumpy.Process):
+        _spec_class = spec_cls
+
         @classmethod
         def define(cls, spec):
             super().define(spec)
             target = getattr(spec, kind)
             for k, v in top.items():
                 setattr(target, k, v)
-            build(target, tree, plumpy)
+            build(target, tree, plumpy, ns_cls)
 
     pre_ports = {}
 
     class Dst(plumpy.Process):
+        _spec_class = spec_cls
+
         @classmethod
         def define(cls, spec):
             super().define(spec)
             target = getattr(spec, kind)
             target['pre1'] = InputPort('pre1', valid_type=int)
-            target['pre2'] = PortNamespace('pre2')
+            target['pre2'] = NS('pre2')
             target['pre2']['q'] = InputPort('q')
             pre_ports['pre1'] = target['pre1']
             pre_ports['pre2'] = target['pre2']
@@ -251,7 +285,8 @@ def run_impl(case):
     try:
         from plumpy.ports import UNSPECIFIED
         real_opts = None if opts is None else {k: (UNSPECIFIED if v == 'UNSPECIFIED' else copy.deepcopy(v)) for k, v in opts.items()}
-        expose(Src, namespace=nsname, exclude=ex, include=inc, namespace_options=real_opts)
+        expose(Src, namespace=real(nsname), exclude=None if ex is None else [real(r) for r in ex],
+               include=None if inc is None else [real(r) for r in inc], namespace_options=real_opts)
     except Exception as e:  # noqa
         err = type(e).__name__
     obs = dict(error=err, paths=None)
